@@ -1,6 +1,7 @@
 import Ecal.Model.Lexer
 import Ecal.Model.LexerSpec
 import Ecal.Lemmas.LexerPos
+import Ecal.Lemmas.LexerInv
 /-!
 # C18 — tokens, errors and breakpoints carry the true source position
 
@@ -13,17 +14,23 @@ Specification (`Ecal.Lex.Spec`, from the bytes alone): `nlBefore inp off` newlin
 first `off` bytes, `lineStart inp off` offset after the last of them, `lineOf = nlBefore + 1`,
 `colOf = off - lineStart + 1`.
 
-What is proved and what is not: the theorems cover every place where the lexer *changes* `line`
-/ `lastnl` and the place where it *reads* them. That the token scanners which do not touch the
-bookkeeping (`lexNumberBlock`, `lexTextBlock`, the `#` comment body) never run over a newline,
-and the composition over a whole input (full statement below), is **not** proved; it is
-evaluated on every generated case by the driver (`Ecal.Drv.C18`: every token of the full model
-against `lineOf` / `colOf`, deviations classified) — tested, not proved.
+What is proved: the step-level facts below **and their lift to the whole input** (second half of
+this file, lemmas in `Ecal.Lemmas.LexerInv`): `L.next` satisfies the step hypotheses; the loops
+that consume runes through the tracked step (skipWhiteSpace, string lexer, block comment) keep
+the bookkeeping true over any number of iterations; the scanners that consume without tracking
+(lexNumberBlock, lexTextBlock, the `#` comment body) never cross a newline; hence the invariant
+between tokens (`lexer_pos_invariant`) and, for every token of every input,
+`token_positions_true_partial`: the line is always true, the column is true unless the
+classifier `afterHashComment` of the known finding holds at the token.
 
-Full-strength statement (kept visible, not proved):
-  `∀ input, ∀ t ∈ lex input, t.id ≠ tEOF → t.line = lineOf input t.pos ∧ t.col = colOf input t.pos`
-It is false as it stands (`hash_comment_column_witness`); the intended partial form is
-  `… → t.line = lineOf input t.pos ∧ (t.col = colOf input t.pos ∨ afterHashComment input (lex input) t.pos)`.
+Not proved (tested by the correspondence on every run): that the model equals parser/lexer.go;
+the EOF clause (the EOF token's line is that of the end of input, its Pos / column are those of
+the previous token's start — known finding `eof-stale-position`); `errors_carry_token_pos`
+(parser.Error / util.RuntimeError copy the token's fields: planted-error cases);
+`separation_ignores_comments` (`sep` cases).
+
+Full-strength statement, false as it stands (`hash_comment_column_witness`):
+  `∀ input, ∀ t ∈ lex input, t.id ≠ tEOF → t.line = lineOf input t.pos ∧ t.col = colOf input t.pos`.
 -/
 namespace Ecal.Props.C18
 open Ecal.Lex Ecal.Lex.Spec
@@ -158,5 +165,78 @@ theorem hash_comment_column_witness_classified :
     afterHashComment witnessSrc.toArray (lex witnessSrc).toList 6 = true ∧
     afterHashComment witnessSrc.toArray (lex witnessSrc).toList 3 = false := by
   decide +kernel
+
+/-! ## The lift to the whole input -/
+
+/-- **next_satisfies_step.** `L.next` decodes with `decodeBytes`; the rune it returns covers
+    `[p, l'.pos)` of the input where `p` is the old position, a newline rune is the single byte
+    `'\n'`, any other rune covers no newline byte — the hypotheses of `lexer_pos_invariant_step`.
+    Nothing but `pos` / `width` changes. -/
+theorem next_satisfies_step (l : L) (hle : l.pos ≤ l.inp.size) :
+    l.pos ≤ (l.next).1.pos ∧ (l.next).1.pos ≤ l.inp.size ∧
+    ((l.next).2 = some 10 → (l.next).1.pos = l.pos + 1 ∧ l.inp.getD l.pos 0 = 10) ∧
+    ((l.next).2 ≠ some 10 → NoNl l.inp l.pos (l.next).1.pos) ∧
+    (l.next).1.core = l.core := by
+  obtain ⟨hp, hc⟩ := next_spec l hle
+  obtain ⟨f1, f2, f3, f4⟩ := hp.facts
+  have hi := (core_fields hc).1
+  rw [hi] at f2 f3 f4
+  exact ⟨f1, f2, f3, f4, hc⟩
+
+example : ((L.next { inp := #[10, 97] }).2 = some 10) ∧ (L.next { inp := #[10, 97] }).1.pos = 1 := by decide
+
+/-- **Tracked loop: skipWhiteSpace** keeps the invariant between tokens, whatever it skips
+    (induction over its loop). `Inv`: position inside the input, `line` true, `lastnl` true or
+    stale in the classified way, all tokens so far right. -/
+theorem skipWhiteSpace_keeps_invariant (l : L) (h : Inv l) (hok : (skipWhiteSpace l).2 = true) :
+    Inv (skipWhiteSpace l).1 := sws_inv l h hok
+
+/-- **Tracked loops: string lexer and block comment.** Over any number of iterations the
+    bookkeeping pair stays true at the start of the pending rune (`Tr`: line true, column base
+    true up to the classified staleness); on exit the pending rune is the end token / the `*`. -/
+theorem tracked_loops_keep_bookkeeping (ae : Bool) (endTok : Option Nat) (T : List Tok) (fuel : Nat)
+    (l : L) (r : Option Nat) (esc : Bool) (a b p : Nat) (l' : L) (a' b' : Nat)
+    (hp : Pend l r p) (htr : Tr l.inp T p a b) :
+    (lexValueLoop ae endTok fuel l r esc a b = some (l', a', b') →
+      l'.core = l.core ∧ ∃ p', Pend l' endTok p' ∧ Tr l.inp T p' a' b') ∧
+    (blockLoop fuel l r a b = some (l', a', b') →
+      l'.core = l.core ∧ l'.peek 1 = some 47 ∧ ∃ p', Pend l' (some 42) p' ∧ Tr l.inp T p' a' b') :=
+  ⟨value_loop ae endTok T fuel l r esc a b p l' a' b' hp htr,
+   block_loop T fuel l r a b p l' a' b' hp htr⟩
+
+/-- **Untracked scanners never cross a newline**: lexNumberBlock and lexTextBlock only move
+    `pos` / `width`, forward, inside the input, over a newline-free stretch (from their loop
+    conditions: they stop at white space / control characters and back up). The `#` comment body
+    is `hash_loop` in `Ecal.Lemmas.LexerInv` (it stops at the newline). -/
+theorem scanners_cross_no_newline (l : L) (hle : l.pos ≤ l.inp.size) :
+    Blk l (lexNumberBlock l) ∧ Blk l (lexTextBlock l) :=
+  ⟨lexNumberBlock_blk l hle, lexTextBlock_blk l hle⟩
+
+/-- **lexer_pos_invariant.** The invariant holds at the start, and every round of run()
+    (`lexToken`, then `skipWhiteSpace`) that continues re-establishes it: at every point between
+    tokens `line` is the number of newlines before `pos` and `lastnl` is the offset after the
+    last one — except after a `#` comment, where `lastnl` is stale until the next tracked newline
+    and `afterHashComment` holds instead. -/
+theorem lexer_pos_invariant (input : List Nat) :
+    Inv ({ inp := input.toArray } : L) ∧
+    ∀ l : L, Inv l → (lexToken l).2 = Next.token → (skipWhiteSpace (lexToken l).1).2 = true →
+      Inv (skipWhiteSpace (lexToken l).1).1 :=
+  ⟨⟨Nat.zero_le _, ⟨rfl, Or.inl rfl⟩, fun t ht => by simp at ht⟩,
+   fun l h ht hs => sws_inv _ ((lexToken_inv l h).2.1 ht) hs⟩
+
+/-- **token_positions_true_partial.** For every input and every token the lexer model emits
+    (comments and the error token included, EOF excluded — it has no first character): the
+    reported line is the true line of the token's `Pos`; the reported column is the true column
+    unless the last newline before the token ended a `#` comment (the classifier of the known
+    finding `hash-comment-column`, evaluated on the emitted token list). -/
+theorem token_positions_true_partial (input : List Nat) :
+    ∀ t ∈ (lex input).toList, t.id ≠ tEOF →
+      t.line = lineOf input.toArray t.pos ∧
+      (t.col = colOf input.toArray t.pos ∨
+        afterHashComment input.toArray (lex input).toList t.pos = true) :=
+  fun t ht hne => lex_ok input t ht hne
+
+/-- non-vacuity: `a # c\nb` has four tokens, three of them not EOF -/
+example : ((lex witnessSrc).toList.filter (·.id ≠ tEOF)).length = 3 := by decide +kernel
 
 end Ecal.Props.C18
